@@ -30,6 +30,7 @@ LOOKALIKE = ["(not an expr)", "[notabinding]", "{a,b}", "/notregex/", "x'i", "( 
 QUOTES1 = ["it's", "d'Artagnan", "'", "'x'", "a 'b' c", "''", "'+proj=longlat'", "'a b'", "x'"]
 QUOTES2 = ['say "hi"', '"', '"x"', 'a "b" c', '""', '6" pipe', '"+datum=WGS84"', '"a b"']
 WRAPPED = ["'x'", '"x"', "'+proj=longlat'", '"+datum=WGS84"', "'a b'", '"a b"', "''", '""', "'it'", '"7"', "'#fff'", "'[a]'"]
+ESCAPED = ['Size 5\\"', '\\"Tignish', 'say \\"hi\\" now', "it\\'s", "rock \\'n\\' roll", '6\\" pipe', "end\\'"]
 BACKSL = ["a\\b", "\\d+", "C:\\x", "\\\\server\\share", "a\\ b", "\\n"]
 
 _ALPHA = st.characters(
@@ -41,10 +42,10 @@ _RANDOM_ASCII = st.text(alphabet=st.sampled_from(list(" abcXYZ019_-.,;:=%&<>*?!@
 CLASS_POOLS = {
     "word": WORDS, "spaced": SPACED, "sql": SQL, "path": PATHS, "hashy": HASHY, "reserved": RESERVED,
     "digits": DIGITS, "latin1": LATIN1, "bmp": BMP, "astral": ASTRAL, "multiline": MULTILINE,
-    "lookalike": LOOKALIKE, "squote": QUOTES1, "dquote": QUOTES2, "backslash": BACKSL, "wrapped": WRAPPED,
+    "lookalike": LOOKALIKE, "squote": QUOTES1, "dquote": QUOTES2, "backslash": BACKSL, "wrapped": WRAPPED, "escaped": ESCAPED,
 }
 ORDER = ["word", "spaced", "sql", "path", "hashy", "reserved", "digits", "empty", "latin1", "bmp", "astral",
-         "multiline", "lookalike", "squote", "dquote", "backslash", "wrapped", "random", "random_ascii"]
+         "multiline", "lookalike", "squote", "dquote", "backslash", "wrapped", "escaped", "random", "random_ascii"]
 
 
 def is_lookalike(s: str) -> bool:
@@ -65,13 +66,21 @@ def is_lookalike(s: str) -> bool:
     return False
 
 
+def unescaped(s: str, q: str) -> bool:
+    """does s contain an occurrence of the quote character q that is not preceded by a backslash?"""
+    return any(c == q and (i == 0 or s[i - 1] != "\\") for i, c in enumerate(s))
+
+
 def ok(s: str, forbid: str = "", lookalike_ok: bool = True, multiline_ok: bool = True, empty_ok: bool = True) -> bool:
-    if any(c in s for c in forbid):
+    # the documented exclusion is an UNESCAPED occurrence of the output quote; \" inside a string is Mapfile syntax
+    if any((unescaped(s, c) if c in "\"'" else c in s) for c in forbid):
         return False
     if s.endswith("\\"):
         return False
     if '"' in s and "'" in s:
         return False
+    if unescaped(s, '"') and "\\\"" in s or unescaped(s, "'") and "\\'" in s:
+        return False   # escaped and unescaped occurrences of one quote character: cannot be written with either quote
     if _HEXLIKE.fullmatch(s.strip()):
         return False
     if not empty_ok and s == "":
@@ -85,9 +94,6 @@ def ok(s: str, forbid: str = "", lookalike_ok: bool = True, multiline_ok: bool =
             if line.strip().lower().startswith("include"):
                 return False
     if not lookalike_ok and is_lookalike(s):
-        return False
-    # a backslash directly before a quote character would escape it in Mapfile syntax
-    if "\\\"" in s or "\\'" in s:
         return False
     return True
 
